@@ -1,5 +1,5 @@
 import SleapVerif.Lemmas.BottomUp
-import SleapVerif.Lemmas.BottomUpMatch
+import SleapVerif.Lemmas.BottomUpCompose
 /-!
 # C03 — bottom-up inference reassembles exactly the labelled animals from ideal maps
 
@@ -11,18 +11,22 @@ Full statement (property C03): *if the network outputs the ideal confidence maps
 output is exactly one instance per visible-edge-connected group of ≥ 2 visible keypoints of a
 labelled animal, those keypoints within half a cell in original coordinates, NaN elsewhere.*
 
-What is theorem here is the combinatorial and coordinate content, `reassembly_exact`, which is
-**conditional** on
-* H1 (peak stage: one peak per visible keypoint, within half a confidence-map cell) and
-* H2 (`Separated`: score separation of true and false candidates)
-— analytic facts about Gaussian / PAF fields of well-separated animals that are **not proved**; the
-harness measures them on every generated scene — and on two facts owned by other properties and
-taken here as named hypotheses: the scipy contract in its local form (`LsaStable`, validated per
-call) and parent-first processing of the connections (`RootFirst`, C17/C08).
+What is theorem here is the combinatorial and coordinate content, `reassembly_exact`, stated about
+the model function `BottomUp.forwardSample` and **conditional** only on
+* the skeleton being an arborescence with at least one edge, in any listing (`Toposort.Arbo`, C17),
+* the solver contract of C08 (`Grouping.LsaSpec`: scipy returns a minimum-cost saturating matching;
+  validated by brute force on every recorded call),
+* H1 (peak stage: every peak within half a confidence-map cell of its scaled keypoint) and
+* H2 (`SepTable`: no NaN score and `Separated` scores, per edge type)
+— H1/H2 are analytic facts about Gaussian / PAF fields of well-separated animals that are **not
+proved**; the harness measures them on every generated scene — plus the configuration
+`min_instance_peaks = 0` (the default).  Parent-first processing and "instance classes =
+components" are no longer assumed: they come from C17 (`toposort_perm`, parent-first order) through
+C08 (`tree_conns`, `assign_classes_eq_components`, `grouping_total_partial`); the local solver
+conditions `LsaStable` come from the one solver contract (`solver_contract_implies_stable`).
 -/
 namespace SleapVerif.C03
-open SleapVerif SleapVerif.BottomUp SleapVerif.Grouping
-open SleapVerif.Toposort (Edge)
+open SleapVerif SleapVerif.BottomUp SleapVerif.Grouping SleapVerif.Toposort
 
 /-! ## the line subscripts -/
 
@@ -293,72 +297,106 @@ theorem fixed_separated_of_thresholds {sc : Nat → Nat → R} {T : Nat → Nat 
     rw [cfalse i j' (inRange i j h).1 hj' hn1, cfalse i' j hi' (inRange i j h).2 hn2, ctrue i j h]
     linarith [hT i j h, clow i' j']
 
+/-! ## the solver contract -/
+
+/-- **One solver contract**: C08's `LsaSpecOn` (scipy's answer is a minimum-cost saturating matching)
+on a cost matrix without NaN cells gives the local conditions `LsaStable` that `accepted_eq_true`
+uses, for the scores `−cost`. -/
+theorem solver_contract_implies_stable {lsa : Lsa R} {C : Mat (Option R)} {M : List (Nat × Nat)}
+    (hv : ValidIn C) (S : LsaSpecOn lsa C) (h : lsa C = some M) :
+    LsaStable (scoreOf C) (nRows C) (nCols C) M ∧ ∀ p ∈ M, p.1 < nRows C ∧ p.2 < nCols C :=
+  lsaStable_of_spec hv S h
+
 /-! ## grouping -/
 
-/-- **Instances = components**: `assign_connections_to_instances` on a root-first connection list
-assigns exactly the endpoints of the connections, and two peaks get the same instance id iff they
-lie in the same component. -/
-theorem assign_eq_components {C : Type} (comp : Peak → C) (cs : List (Peak × Peak)) (n : Nat)
-    (h : RootFirst comp cs) :
-    (∀ p, (lookup (assignConnections cs (.int 0) n) p).isSome ↔ p ∈ endpoints cs) ∧
-    (∀ p q i j, lookup (assignConnections cs (.int 0) n) p = some i →
-      lookup (assignConnections cs (.int 0) n) q = some j → (i = j ↔ comp p = comp q)) := by
-  rw [assignConnections_zero]
-  exact ⟨(ainv_assignRaw comp cs h).keys, (ainv_assignRaw comp cs h).ids⟩
+/-- **The grouping stage** (`PAFScorer.predict` after scoring = `Grouping.groupSample`, pinned
+matching) on an arborescence in any listing, under the solver contract and H2: it returns; the
+accepted connections are exactly the true visible edges; exactly their endpoints are assigned;
+two peaks share an instance iff a chain of true visible edges joins them.  (C17 → C08
+`tree_conns` → `assign_classes_eq_components`; no assumption on the processing order.) -/
+theorem grouping_reassembly {lsa : Lsa R} {P : Grouping.Params R} {r : Nat} {ch : List Nat}
+    {scores : List (Mat (Option R))}
+    (A : Arbo P.edges r) (ho : toposort P.edges = some P.order)
+    (S : LsaOK false lsa P ch scores) (hmp : P.minPeaks = .int 0)
+    (T : Nat → Nat → Nat → Prop)
+    (H2 : ∀ k e, P.edges[k]? = some e → SepTable (edgeCost ch scores k e) (T k) P.minLine) :
+    ∃ out, groupSample false lsa P ch scores = .ok out ∧
+      (∀ p q, (p, q) ∈ pairs out.conns ↔
+        ∃ k e i j, P.edges[k]? = some e ∧ T k i j ∧ p = (e.1, i) ∧ q = (e.2, j)) ∧
+      (∀ p, (lookup out.assign p).isSome ↔ p ∈ endpoints (pairs out.conns)) ∧
+      (∀ p q i j, lookup out.assign p = some i → lookup out.assign q = some j →
+        (i = j ↔ Connected (pairs out.conns) p q)) :=
+  BottomUp.grouping_reassembly A ho S hmp T H2
 
-/-- **Composition.**  Scene data: `T k i j` — the `i`-th peak of the source node type and the `j`-th
-peak of the destination node type of edge `k` are the two (visible) ends of that edge in one
-labelled animal; `comp p` — the visible-edge-connected group of the keypoint that peak `p` stands
-for; `g p` / `kp p` — grid position of the peak and original-image position of its keypoint.
+/-- **Composition**, about the model of `BottomUpInferenceModel.forward` for one sample.
 
-Hypotheses: per edge the scipy contract (`LsaStable`) and H2 (`Separated`); `hconn` — the
-connection list holds, per edge, the matched pairs that pass `min_line_scores` (what
-`Grouping.connections ∘ filterMinScore` computes); `hrf` — parent-first processing; H1 — every
-peak within half a confidence-map cell of its scaled keypoint.
+Scene data: `T k i j` — the `i`-th peak of the source node type and the `j`-th peak of the
+destination node type of edge `k` are the two visible ends of that edge in one labelled animal;
+`kp g` — original-image position of the keypoint that the `g`-th detected peak stands for.
 
-Conclusion: the accepted connections are exactly the true visible edges; a peak is part of an
-instance iff it is an end of a true visible edge (its keypoint has a visible neighbour, i.e. lies
-in a group of ≥ 2); two peaks share an instance iff their keypoints lie in the same group; and
-every peak is returned within half a cell, in original-image coordinates, of its keypoint. -/
-theorem reassembly_exact {C : Type} (comp : Peak → C) (edges : List Edge) (n cms : Nat)
-    (sc : Nat → Nat → Nat → R) (T : Nat → Nat → Nat → Prop) (nr nc : Nat → Nat)
-    (M : Nat → List (Nat × Nat)) (minLine s e : R) (cs : List (Peak × Peak)) (g kp : Peak → R × R)
-    (hs : 0 < s) (he : 0 < e)
-    (hM : ∀ k < edges.length, LsaStable (sc k) (nr k) (nc k) (M k) ∧ ∀ p ∈ M k, p.1 < nr k ∧ p.2 < nc k)
-    (H2 : ∀ k < edges.length, Separated (sc k) (T k) (nr k) (nc k) minLine)
-    (hconn : ∀ c, c ∈ cs ↔ ∃ k, ∃ hk : k < edges.length, ∃ i j, (i, j) ∈ M k ∧ minLine ≤ sc k i j ∧
-      c = ((edges[k].1, i), (edges[k].2, j)))
-    (hrf : RootFirst comp cs)
-    (H1 : ∀ p, |(g p).1 * (cms : R) - s * e * (kp p).1| ≤ (cms : R) / 2 ∧
-               |(g p).2 * (cms : R) - s * e * (kp p).2| ≤ (cms : R) / 2) :
-    (∀ c, c ∈ cs ↔ ∃ k, ∃ hk : k < edges.length, ∃ i j, T k i j ∧
-      c = ((edges[k].1, i), (edges[k].2, j))) ∧
-    (∀ p, (lookup (assignConnections cs (.int 0) n) p).isSome ↔
-      ∃ k, ∃ hk : k < edges.length, ∃ i j, T k i j ∧ (p = (edges[k].1, i) ∨ p = (edges[k].2, j))) ∧
-    (∀ p q i j, lookup (assignConnections cs (.int 0) n) p = some i →
-      lookup (assignConnections cs (.int 0) n) q = some j → (i = j ↔ comp p = comp q)) ∧
-    (∀ p, |(decode s e (peaksImg (fun i => (i : R)) cms (g p))).1 - (kp p).1| ≤ (cms : R) / 2 / (s * e) ∧
-          |(decode s e (peaksImg (fun i => (i : R)) cms (g p))).2 - (kp p).2| ≤ (cms : R) / 2 / (s * e)) := by
-  have hacc : ∀ c, c ∈ cs ↔ ∃ k, ∃ hk : k < edges.length, ∃ i j, T k i j ∧
-      c = ((edges[k].1, i), (edges[k].2, j)) := by
-    intro c
-    rw [hconn]
-    constructor
-    · rintro ⟨k, hk, i, j, hm, hsc, rfl⟩
-      exact ⟨k, hk, i, j, (accepted_eq_true (hM k hk).2 (hM k hk).1 (H2 k hk) i j).mp ⟨hm, hsc⟩, rfl⟩
-    · rintro ⟨k, hk, i, j, hT, rfl⟩
-      obtain ⟨hm, hsc⟩ := (accepted_eq_true (hM k hk).2 (hM k hk).1 (H2 k hk) i j).mpr hT
-      exact ⟨k, hk, i, j, hm, hsc, rfl⟩
-  obtain ⟨hkeys, hids⟩ := assign_eq_components comp cs n hrf
-  refine ⟨hacc, ?_, hids, fun p => decode_within_half_cell cms s e (g p) (kp p) hs he (H1 p).1 (H1 p).2⟩
+Hypotheses: the skeleton is an arborescence with at least one edge, **in any listing**; scipy obeys
+the solver contract; `min_instance_peaks = 0`; **H2** per edge type on the cost matrices of this
+run (`SepTable`); **H1** every detected peak lies within half a confidence-map cell of its scaled
+keypoint.
+
+Conclusion: `forward` returns; its accepted connections are exactly the true visible edges; a peak
+`(node, index)` is part of an instance iff it is an end of a true visible edge (its keypoint has a
+visible neighbour: group of ≥ 2); two peaks share an instance iff a chain of true visible edges
+joins them (same visible-edge-connected group); and the coordinates written for any peak are
+within half a cell, in original-image units, of its keypoint. -/
+theorem reassembly_exact {fl : R → Int} {sqrt : R → R} {P : BottomUp.Params R} {paf : Paf R}
+    {peaks : List (GPeak R)} {lsa : Lsa R} {r : Nat}
+    (A : Arbo P.edges r) (hne : P.edges ≠ [])
+    (S : LsaSpec lsa) (hmp : P.minPeaks = .int 0)
+    (T : Nat → Nat → Nat → Prop)
+    (H2 : ∀ k e, P.edges[k]? = some e →
+      SepTable (edgeCost (peaks.map (·.ch))
+        (scoreTables (peaks.map (·.ch)) P.edges (scoreCands fl (fun i => (i : R)) sqrt P paf peaks)) k e)
+        (T k) P.minLine)
+    (eff : R) (kp : Nat → R × R) (hs : 0 < P.inputScale) (he : 0 < eff)
+    (H1 : ∀ g p, peaks[g]? = some p →
+      |p.g.1 * (P.cmsStride : R) - P.inputScale * eff * (kp g).1| ≤ (P.cmsStride : R) / 2 ∧
+      |p.g.2 * (P.cmsStride : R) - P.inputScale * eff * (kp g).2| ≤ (P.cmsStride : R) / 2) :
+    ∃ o, forwardSample fl (fun i => (i : R)) sqrt P paf peaks lsa = .ok o ∧
+      (∀ p q, (p, q) ∈ pairs o.conns ↔
+        ∃ k e i j, P.edges[k]? = some e ∧ T k i j ∧ p = (e.1, i) ∧ q = (e.2, j)) ∧
+      (∀ p, (lookup o.assign p).isSome ↔
+        ∃ k e i j, P.edges[k]? = some e ∧ T k i j ∧ (p = (e.1, i) ∨ p = (e.2, j))) ∧
+      (∀ p q i j, lookup o.assign p = some i → lookup o.assign q = some j →
+        (i = j ↔ Connected (pairs o.conns) p q)) ∧
+      (∀ g p, peaks[g]? = some p →
+        |(decode P.inputScale eff (peaksImg (fun i => (i : R)) P.cmsStride p.g)).1 - (kp g).1|
+            ≤ (P.cmsStride : R) / 2 / (P.inputScale * eff) ∧
+        |(decode P.inputScale eff (peaksImg (fun i => (i : R)) P.cmsStride p.g)).2 - (kp g).2|
+            ≤ (P.cmsStride : R) / 2 / (P.inputScale * eff)) := by
+  obtain ⟨order, ho, _⟩ := C17.toposort_perm A hne
+  have hfwd : ∀ out, groupSample false lsa (groupParams P order) (peaks.map (·.ch))
+      (scoreTables (peaks.map (·.ch)) P.edges (scoreCands fl (fun i => (i : R)) sqrt P paf peaks)) = .ok out →
+      ∃ o, forwardSample fl (fun i => (i : R)) sqrt P paf peaks lsa = .ok o ∧
+        o.conns = out.conns ∧ o.assign = out.assign := by
+    intro out h
+    simp only [forwardSample, ho]
+    rw [h]
+    exact ⟨_, rfl, rfl, rfl⟩
+  generalize scoreTables (peaks.map (·.ch)) P.edges (scoreCands fl (fun i => (i : R)) sqrt P paf peaks)
+    = tabs at H2 hfwd
+  generalize peaks.map (·.ch) = ch at H2 hfwd
+  have SO : LsaOK false lsa (groupParams P order) ch tabs := LsaSpec.ok S false _ _ _
+  obtain ⟨out, h, h1, h2, h3⟩ :=
+    BottomUp.grouping_reassembly (P := groupParams P order) (r := r) A ho SO hmp T H2
+  obtain ⟨o, ho1, hc, ha⟩ := hfwd out h
+  rw [← hc] at h1 h3
+  rw [← ha] at h2 h3
+  refine ⟨o, ho1, h1, ?_, h3, fun g p hg =>
+    decode_within_half_cell P.cmsStride P.inputScale eff p.g (kp g) hs he (H1 g p hg).1 (H1 g p hg).2⟩
   intro p
-  rw [hkeys, mem_endpoints]
+  rw [h2, ← hc, mem_endpoints]
   constructor
-  · rintro ⟨c, hc, hp⟩
-    obtain ⟨k, hk, i, j, hT, rfl⟩ := (hacc c).mp hc
-    exact ⟨k, hk, i, j, hT, hp⟩
-  · rintro ⟨k, hk, i, j, hT, hp⟩
-    exact ⟨_, (hacc _).mpr ⟨k, hk, i, j, hT, rfl⟩, hp⟩
+  · rintro ⟨c, hc', hp⟩
+    obtain ⟨k, e, i, j, hke, hT, h1', h2'⟩ := (h1 c.1 c.2).mp (hc ▸ hc')
+    exact ⟨k, e, i, j, hke, hT, by rw [← h1', ← h2']; exact hp⟩
+  · rintro ⟨k, e, i, j, hke, hT, hp⟩
+    exact ⟨((e.1, i), (e.2, j)), hc ▸ (h1 _ _).mpr ⟨k, e, i, j, hke, hT, rfl, rfl⟩, hp⟩
 
 /-! ## max_instances -/
 
@@ -423,30 +461,54 @@ example : LsaStable (fun i j : Nat => if i = j then (1 : Rat) else 0) 2 2 [(0, 0
       simp only [e1, e2, if_true]
       split_ifs <;> norm_num
 
-/-- a root-first connection list: the chain 0→1→2 of animal 0, then edge 0→1 of animal 1
-(peaks are `(node, index)`, the component of a peak is its index) -/
-example : RootFirst (fun p : Peak => p.2) [((0, 0), (1, 0)), ((0, 1), (1, 1)), ((1, 0), (2, 0))] := by
-  intro pre c post e
-  match pre, e with
-  | [], e =>
-    simp only [List.nil_append, List.cons.injEq] at e
-    obtain ⟨rfl, _⟩ := e
-    simp [endpoints]
-  | [_], e =>
-    simp only [List.cons_append, List.nil_append, List.cons.injEq] at e
-    obtain ⟨rfl, rfl, _⟩ := e
-    simp [endpoints]
-  | [_, _], e =>
-    simp only [List.cons_append, List.nil_append, List.cons.injEq] at e
-    obtain ⟨rfl, rfl, rfl, _⟩ := e
-    simp [endpoints]
-  | _ :: _ :: _ :: pre', e =>
-    simp only [List.cons_append, List.cons.injEq] at e
-    obtain ⟨_, _, _, e⟩ := e
-    simp at e
-
-example : assignRaw [((0, 0), (1, 0)), ((0, 1), (1, 1)), ((1, 0), (2, 0))]
-    = [((0, 0), 0), ((1, 0), 0), ((0, 1), 1), ((1, 1), 1), ((2, 0), 0)] := by decide
+/-- H2 is satisfiable: the cost matrix of two animals with both ends visible (true scores 1, false
+scores 0) is a `SepTable` for `min_line_scores = 1/4` -/
+example : SepTable ([[some (-1), some 0], [some 0, some (-1)]] : Mat (Option Rat))
+    (fun i j => i = j ∧ i < 2) (1 / 4) := by
+  have hsc : ∀ i j, scoreOf ([[some (-1), some 0], [some 0, some (-1)]] : Mat (Option Rat)) i j
+      = if i = j ∧ i < 2 then 1 else 0 := by
+    intro i j
+    match i, j with
+    | 0, 0 => simp [scoreOf, entry]
+    | 0, 1 => simp [scoreOf, entry]
+    | 1, 0 => simp [scoreOf, entry]
+    | 1, 1 => simp [scoreOf, entry]
+    | 0, (j + 2) => simp [scoreOf, entry]
+    | 1, (j + 2) => simp [scoreOf, entry]
+    | (i + 2), j => simp [scoreOf, entry]
+  refine ⟨?_, ?_⟩
+  · intro i hi j hj
+    have hi' : i < 2 := hi
+    have hj' : j < 2 := hj
+    match i, j, hi', hj' with
+    | 0, 0, _, _ => simp [entry]
+    | 0, 1, _, _ => simp [entry]
+    | 1, 0, _, _ => simp [entry]
+    | 1, 1, _, _ => simp [entry]
+  have hr : nRows ([[some (-1), some 0], [some 0, some (-1)]] : Mat (Option Rat)) = 2 := rfl
+  have hc : nCols ([[some (-1), some 0], [some 0, some (-1)]] : Mat (Option Rat)) = 2 := rfl
+  rw [hr, hc]
+  refine ⟨?_, ?_, ?_, ?_, ?_, ?_, ?_, ?_⟩
+  · rintro i j ⟨rfl, h⟩; exact ⟨h, h⟩
+  · rintro i j j' ⟨rfl, _⟩ ⟨rfl, _⟩; rfl
+  · rintro i i' j ⟨rfl, _⟩ ⟨rfl, _⟩; rfl
+  · rintro i j ⟨rfl, h⟩; rw [hsc]; simp only [h, and_self, if_true]; norm_num
+  · intro i j hi _ hrow _
+    exact absurd ⟨rfl, hi⟩ (hrow i)
+  · rintro i j j' ⟨rfl, h⟩ _ hne
+    rw [hsc, hsc]; simp [h, Ne.symm hne]
+  · rintro i i' j ⟨rfl, h⟩ _ hne
+    rw [hsc, hsc]; simp [h, hne]
+  · rintro i j i' j' ⟨rfl, h⟩ _ _ h1 h2
+    rw [hsc, hsc, hsc, hsc]
+    have e1 : (if i = j' ∧ i < 2 then (1 : Rat) else 0) = 0 := by
+      rw [if_neg]; exact fun hh => h2 hh.1.symm
+    have e2 : (if i' = i ∧ i' < 2 then (1 : Rat) else 0) = 0 := by
+      rw [if_neg]; exact fun hh => h1 hh.1
+    have e3 : (if i = i ∧ i < 2 then (1 : Rat) else 0) = 1 := by
+      rw [if_pos]; exact ⟨rfl, h⟩
+    rw [e1, e2, e3]
+    split_ifs <;> norm_num
 
 /-- rounding: ties go to the even cell (`6/4 = 1.5 ↦ 2`, `10/4 = 2.5 ↦ 2`), as `torch.round` -/
 example : roundHalfEven Rat.floor (fun i => (i : Rat)) (3 / 2) = 2 ∧
